@@ -176,6 +176,8 @@ def unsafe_sites(F):
                 if "unsafe fn" in fty or "unsafe extern" in fty:
                     if mir.callee(t) == "std::fmt::Arguments::<'a>::new":
                         continue    # emitted by format_args!/println! (compiler-checked template/argument agreement)
+                    if (mir.callee(t) or "").startswith("std::thread::local_impl::"):
+                        continue    # emitted by thread_local! (these internals cannot be named by the crate's own code)
                     out.append((path, bi, t))
         # raw pointer dereferences
         for bi, b in enumerate(fn["mir"]["blocks"]):
@@ -408,7 +410,7 @@ def stack_nonempty(ctx, fn, t, F):
     pushes = [c for c, _ in hir.walk(new["hir"]["body"]) if c.get("k") == "MethodCall" and c["name"] in ("push", "push_unchecked", "try_push")
               and hir.fmt(sym(c["recv"]), 40).endswith(".state")]
     root_push = len(pushes) == 1 and not [x for x in (hir.guards_of(pushes[0], new["hir"]["body"], sym) or []) if x[0] == "if" and x[2] is True
-                                          and "let(" not in hir.fmt(x[1], 30)]
+                                          and "let(" not in hir.fmt(x[1], 30) and x[3:] != ("exit",)]
     found["root entry pushed in new"] = root_push
     # (b) pop drops exactly one entry (C03.M) and every pop is preceded by its push on every path (C03.S2)
     g = mir.callgraph(F)
